@@ -187,6 +187,9 @@ func memInv(key, sort, term, alloc string) string {
 	case (strings.HasPrefix(key, "F:") || strings.HasPrefix(key, "P:")) && sort == "(Array Int Slice)":
 		x := "(select " + term + " r)"
 		return "(forall ((r Int)) (! " + wf(x) + " :pattern (" + x + ")))"
+	case key == chReg:
+		// producer streams are registered by the activation under verification only: none at its entry
+		return "(forall ((r Int)) (! (not (select " + term + " r)) :pattern ((select " + term + " r))))"
 	case strings.HasPrefix(key, "MV:") && strings.HasSuffix(sort, " Slice))"):
 		x := "(select (select " + term + " r) k)"
 		ks := strings.TrimSuffix(strings.TrimPrefix(sort, "(Array Int (Array "), " Slice))")
@@ -797,7 +800,7 @@ func (ex *Exec) typeInv(term string, t types.Type, st *State) string {
 		if u.Info()&types.IsString != 0 {
 			return ex.strInv(term)
 		}
-	case *types.Pointer, *types.Map:
+	case *types.Pointer, *types.Map, *types.Chan:
 		return sOr("(= "+term+" 0)", sSel(ex.get(st, "alloc", "(Array Int Bool)"), "(rootOf "+term+")"))
 	}
 	if tp, ok := types.Unalias(t).(*types.TypeParam); ok {
@@ -991,7 +994,7 @@ func (ex *Exec) instr(ins ssa.Instruction) {
 	case *ssa.Next:
 		ex.doNext(i)
 	case *ssa.MakeChan:
-		ex.bind(i, ex.newRef("chan"))
+		ex.doMakeChan(i)
 	case *ssa.Go:
 		ex.doGo(i)
 	case *ssa.Send:
